@@ -63,20 +63,14 @@ Theorem C06_call_validates_first : forall ev b sg args off e,
 Proof. exact call_validates_first. Qed.
 Print Assumptions C06_call_validates_first.
 
-(** ... and a call that passes the check never fails with an arity or argument
-    type error of its own, never traps, and (functions without expression
-    arguments) returns a value of the declared result type. *)
-Theorem C06_well_typed_call : forall ev b name sg ss args off,
-  In (name, b, sg, ss) builtin_rows -> validate sg args off = Ok tt -> no_expref_args b args = true ->
-  plain_builtin b = true ->
-  match call_builtin ev b sg args off with
-  | Ok (v, o) => o = off /\ (result_checked b = true -> has_stype (s_result ss) v = true)
-  | Err EFabricated => may_fabricate b = true
-  | Unmodelled => b = BToString \/ b = BToNumber
-  | _ => False
-  end.
-Proof. exact well_typed_call. Qed.
-Print Assumptions C06_well_typed_call.
+(** ... and a call that passes the check never fails with an arity, argument
+    type or unknown-function error of its own: such an error can only come out
+    of a nested call evaluated inside an expression-reference argument. Holds for
+    all 26 builtins and every argument list. *)
+Theorem C06_no_signature_error_after_validation : forall ev b sg args off,
+  ev_clean ev -> validate sg args off = Ok tt -> sig_error (call_builtin ev b sg args off) = false.
+Proof. exact no_sig_error_after_validation. Qed.
+Print Assumptions C06_no_signature_error_after_validation.
 
 (** Calling an unregistered name is the unknown-function error at the call's offset. *)
 Theorem C06_unknown_function : forall n rt d off name args o vs o1,
